@@ -19,6 +19,9 @@ pub struct CCase {
     pub muts: Vec<(u8, u8, u8)>,
     pub with_oracle: bool,
     pub with_treasury: bool,
+    /// the base configuration lists its first validator in the (legal) upper-case spelling
+    #[serde(default)]
+    pub upper_validator: bool,
 }
 
 pub fn gen(seed: u64) -> CCase {
@@ -34,6 +37,7 @@ pub fn gen(seed: u64) -> CCase {
         muts: (0..n).map(|_| (rng.below(17) as u8, rng.below(14) as u8, rng.below(16) as u8)).collect(),
         with_oracle: rng.chance(3, 4),
         with_treasury: rng.chance(1, 2),
+        upper_validator: rng.chance(1, 4),
     }
 }
 
@@ -188,7 +192,7 @@ fn base_parts(c: &CCase, variant: u8) -> Parts {
             "account_address_prefix": np,
             "validator_address_prefix": vp,
             "token_denom": "utia",
-            "validators": [addr20(&vp, &tag("v0")), addr20(&vp, &tag("v1"))],
+            "validators": [if c.upper_validator { addr20(&vp, &tag("v0")).to_uppercase() } else { addr20(&vp, &tag("v0")) }, addr20(&vp, &tag("v1"))],
             "unbonding_period": 1_814_400u64 + variant as u64,
             "staker_address": addr20(np, &tag("staker")),
             "reward_collector_address": addr20(np, &tag("collector")),
